@@ -739,6 +739,9 @@ class ParallelProcess(Process):
         # parent can answer reads itself, also while the child is busy.
         self._schema_copy: Optional[Schema] = None
         self._schema_known = False
+        # Result collected by end() from a command that was still in
+        # flight, kept for a caller that is about to ask for it.
+        self._result_at_end: Any = None
 
     def send_command(
             self, command: str, args: Optional[tuple] = None,
@@ -770,6 +773,10 @@ class ParallelProcess(Process):
                 'Trying to retrieve command result, but no command is '
                 'pending.')
         self._pending_command = None
+        if self._ended:
+            # the worker is gone; hand out what it had produced last
+            result, self._result_at_end = self._result_at_end, None
+            return result
         return self.parent.recv()
 
     def initial_state(self, config: Optional[dict] = None) -> State:
@@ -846,8 +853,9 @@ class ParallelProcess(Process):
         if self._ended:
             return
         if self._pending_command:
-            # collect the result of the command still in flight
-            self.get_command_result()
+            # collect the result of the command still in flight; an
+            # update due in this very batch will still be asked for
+            self._result_at_end = self.get_command_result()
         self.send_command('end')
         if self.profile:
             stats = pstats.Stats()
